@@ -844,4 +844,421 @@ theorem nonvacuous :
   obtain ⟨_, e2, _⟩ := (run0DOn_outcome badIn [0] 0 c2).2 s2
   exact ⟨e1, by rw [run0DOn_NtCoolEnd]; exact c1, e1', e2⟩
 
+
+/-! ## 2D model (`SnowModel/Snowing2D.lean`)
+
+`S2D.run` returns `Except String (Result α)`: a complete result (every statistic and all four
+histories are fields of `Result`) or the class of the exception – partial data cannot even be
+expressed.  The loops are the generic skeletons (`Lemmas/Snowing2DLoop.lean`, `Snowing2DRun.lean`);
+the ghost field `steps` records the loop index of every saved row. -/
+
+open Snow.S2D in
+/-- **2D**: a run returns a complete result or raises `ValueError` / `IndexError` -/
+theorem complete_or_raise_2D (p : Par ℝ) (f : Flags) (T0C : ℝ) (prof : List ℝ) (NtExp : ℕ) (Frand : ℝ)
+    (cn : Option ℝ) :
+    (∃ r, run p f T0C prof NtExp Frand cn = .ok r) ∨
+      run p f T0C prof NtExp Frand cn = .error "ValueError" ∨
+      run p f T0C prof NtExp Frand cn = .error "IndexError" := by
+  rw [run_eq]
+  rcases cool2D p f T0C prof NtExp Frand cn with ⟨_ | iEnd, s⟩
+  · right; left; rfl
+  · simp only
+    by_cases hfull : s.rows.size ≥ 10000
+    · right; right; simp only [hfull, if_true]
+    · simp only [hfull, if_false]
+      rcases (solFin2D (mkCtx p f) NtExp prof iEnd s).iSol with _ | iS
+      · right; left; rfl
+      · left; exact ⟨_, rfl⟩
+
+open Snow.S2D in
+/-- **2D**: `t_fr = t_nuc + t_sol` -/
+theorem tfr_eq_2D (p : Par ℝ) (f : Flags) (T0C : ℝ) (prof : List ℝ) (NtExp : ℕ) (Frand : ℝ)
+    (cn : Option ℝ) (r : Result ℝ) (h : run p f T0C prof NtExp Frand cn = .ok r) :
+    r.tFr = r.tNuc + r.tSol := by
+  obtain ⟨_, _, _, iS, _, hr⟩ := run2D_cool p f T0C prof NtExp Frand cn r h
+  rw [hr]
+  simp only [mkResult, ofNat'_real]
+  ring
+
+open Snow.S2D in
+/-- state of the 2D solidification loop after its step `j` -/
+noncomputable def solSt2D (p : Par ℝ) (f : Flags) (T0C : ℝ) (prof : List ℝ) (NtExp iEnd j : ℕ) : SolSt ℝ :=
+  prefState (solStep2D (mkCtx p f) NtExp iEnd) ((shelfK prof).drop iEnd) 0
+    (solInit2D (mkCtx p f) (st2D p f T0C prof NtExp iEnd)) j
+
+open Snow.S2D in
+/-- **2D**: the recorded solidification index is the FIRST step whose integrated frozen-water
+fraction (computed from the field that step leaves behind) is `≥ 0.9`; `t_sol = dt·i_sol`. -/
+theorem tsol_first_90_2D (p : Par ℝ) (f : Flags) (T0C : ℝ) (prof : List ℝ) (NtExp : ℕ) (Frand : ℝ)
+    (cn : Option ℝ) (r : Result ℝ) (h : run p f T0C prof NtExp Frand cn = .ok r) :
+    r.iSol < prof.length - r.iCool ∧
+      0.9 ≤ (solSt2D p f T0C prof NtExp r.iCool r.iSol).sg ∧
+      (∀ j, j < r.iSol → (solSt2D p f T0C prof NtExp r.iCool j).sg < 0.9) ∧
+      (∀ j, (solSt2D p f T0C prof NtExp r.iCool j).sg =
+        sigmaOf (mkCtx p f) (iceFrac (mkCtx p f) (solSt2D p f T0C prof NtExp r.iCool j).T) ∨
+          (shelfK prof).length - r.iCool ≤ j) ∧
+      r.tSol = (mkCtx p f).dt * (r.iSol : ℝ) / 60 := by
+  obtain ⟨_, _, _, iS, hsol, hr⟩ := run2D_cool p f T0C prof NtExp Frand cn r h
+  have hiS : r.iSol = iS := by rw [hr]; rfl
+  have := firstHit_iff (solStep2D (mkCtx p f) NtExp r.iCool) (fun s => s.iSol)
+    (fun s => decide ((0.9 : ℝ) ≤ s.sg))
+    (by intro i s x; simp only [solStep2D, solStepSt, lit09])
+    ((shelfK prof).drop r.iCool) 0 (solInit2D (mkCtx p f) (st2D p f T0C prof NtExp r.iCool)) rfl iS
+  simp only [Nat.zero_add, decide_eq_true_eq, decide_eq_false_iff_not, not_le] at this
+  obtain ⟨h1, h2, h3⟩ := this.mp hsol
+  rw [hiS]
+  refine ⟨by simpa [shelfK] using h1, h2, h3, ?_, by rw [hr]; simp only [mkResult, ofNat'_real, Nat.cast_ofNat]⟩
+  intro j
+  by_cases hj : j < ((shelfK prof).drop r.iCool).length
+  · left
+    exact stateAt_post (solStep2D (mkCtx p f) NtExp r.iCool)
+      (fun s => s.sg = sigmaOf (mkCtx p f) (iceFrac (mkCtx p f) s.T)) _ _ (fun _ _ _ => rfl) j hj
+  · right; simp only [List.length_drop] at hj; omega
+
+open Snow.S2D in
+/-- **2D**: all reported times lie within the process `[0, (n−1)·dt]` -/
+theorem times_within_2D (p : Par ℝ) (f : Flags) (hdt : 0 ≤ (mkCtx p f).dt) (T0C : ℝ) (prof : List ℝ)
+    (NtExp : ℕ) (Frand : ℝ) (cn : Option ℝ) (r : Result ℝ) (h : run p f T0C prof NtExp Frand cn = .ok r) :
+    r.iCool + r.iSol ≤ prof.length - 1 ∧ 0 ≤ r.tNuc ∧ 0 ≤ r.tSol ∧ r.tNuc ≤ r.tFr ∧
+      r.tFr ≤ (mkCtx p f).dt * ((prof.length - 1 : ℕ) : ℝ) / 60 := by
+  obtain ⟨hc, _, _, iS, _, hr⟩ := run2D_cool p f T0C prof NtExp Frand cn r h
+  obtain ⟨hS, _, _, _, _⟩ := tsol_first_90_2D p f T0C prof NtExp Frand cn r h
+  have hi : r.iCool < prof.length := by
+    unfold cool2D at hc
+    rw [loopUntil_fst_some_iff] at hc
+    simpa [shelfK] using hc.1
+  have hsum : r.iCool + r.iSol ≤ prof.length - 1 := by omega
+  have hiS : r.iSol = iS := by rw [hr]; rfl
+  have e1 : r.tNuc = (mkCtx p f).dt * (r.iCool : ℝ) / 60 := by
+    rw [hr]; simp only [mkResult, ofNat'_real, Nat.cast_ofNat]
+  have e2 : r.tSol = (mkCtx p f).dt * (r.iSol : ℝ) / 60 := by
+    rw [hiS, hr]; simp only [mkResult, ofNat'_real, Nat.cast_ofNat]
+  have e3 := tfr_eq_2D p f T0C prof NtExp Frand cn r h
+  set d := (mkCtx p f).dt
+  have c1 : (0 : ℝ) ≤ r.iCool := Nat.cast_nonneg _
+  have c2 : (0 : ℝ) ≤ r.iSol := Nat.cast_nonneg _
+  have c3 : ((r.iCool + r.iSol : ℕ) : ℝ) ≤ ((prof.length - 1 : ℕ) : ℝ) := by exact_mod_cast hsum
+  push_cast at c3
+  have c4 : d * ((r.iCool : ℝ) + r.iSol) ≤ d * ((prof.length - 1 : ℕ) : ℝ) := mul_le_mul_of_nonneg_left c3 hdt
+  have c5 : 0 ≤ d * (r.iCool : ℝ) := mul_nonneg hdt c1
+  have c6 : 0 ≤ d * (r.iSol : ℝ) := mul_nonneg hdt c2
+  refine ⟨hsum, by rw [e1]; positivity, by rw [e2]; positivity, by rw [e3, e2]; linarith [div_nonneg c6 (by norm_num : (0:ℝ) ≤ 60)], ?_⟩
+  rw [e3, e1, e2]
+  have : d * (r.iCool : ℝ) / 60 + d * (r.iSol : ℝ) / 60 = d * ((r.iCool : ℝ) + r.iSol) / 60 := by ring
+  rw [this]
+  linarith
+
+
+/-! ### 2D: save buffers -/
+
+/-- a saved 2D row is aligned with the programme at loop index `st` -/
+def RowOK2 (shelf : List ℝ) (dt : ℝ) (r : S2D.Row ℝ) (st : ℕ) : Prop :=
+  st < shelf.length ∧ r.time = dt * (st : ℝ) ∧ r.shelf = shelf.getD st 0 - 273.15
+
+/-- rows and their (ghost) loop indices, pairwise aligned -/
+def Aligned2 (shelf : List ℝ) (dt : ℝ) (rows : List (S2D.Row ℝ)) (steps : List ℕ) : Prop :=
+  List.Forall₂ (RowOK2 shelf dt) rows steps
+
+theorem aligned2_push {shelf : List ℝ} {dt : ℝ} {rows : List (S2D.Row ℝ)} {steps : List ℕ}
+    (h : Aligned2 shelf dt rows steps) (r : S2D.Row ℝ) (st : ℕ) (hr : RowOK2 shelf dt r st) :
+    Aligned2 shelf dt (rows ++ [r]) (steps ++ [st]) :=
+  List.rel_append h (List.Forall₂.cons hr List.Forall₂.nil)
+
+theorem sorted_push (l : List ℕ) (x : ℕ) (h : l.Pairwise (· ≤ ·)) (hx : ∀ a ∈ l, a ≤ x) :
+    (l ++ [x]).Pairwise (· ≤ ·) := by
+  rw [List.pairwise_append]
+  exact ⟨h, by simp, fun a ha b hb => by simp only [List.mem_singleton] at hb; rw [hb]; exact hx a ha⟩
+
+theorem saveStride_2D (N : ℕ) : S2D.saveStride N = Snow.saveStride N := rfl
+
+/-- invariant of the 2D cooling loop before step `i` -/
+structure CoolInv2D (shelf : List ℝ) (dt : ℝ) (S : ℕ) (i : ℕ) (s : S2D.CoolSt ℝ) : Prop where
+  count : s.rows.size * S < i + S
+  cap : s.rows.size ≤ NSave
+  aligned : Aligned2 shelf dt s.rows.toList s.steps.toList
+  lt : ∀ st ∈ s.steps.toList, st < i
+  sorted : s.steps.toList.Pairwise (· ≤ ·)
+  last : ∀ i', i = i' + 1 → s.Tshelf = shelf.getD i' 0
+
+open Snow.S2D in
+/-- the invariant holds along the 2D cooling loop: every in-loop row index is `< 10 000` (the model
+need not – and does not – test the capacity inside the loop), rows are aligned and ordered -/
+theorem cool_inv_2D (p : Par ℝ) (f : Flags) (T0C : ℝ) (prof : List ℝ) (NtExp : ℕ)
+    (hlen : prof.length ≤ NtExp) (k : ℕ) (hk : k < prof.length) :
+    CoolInv2D (shelfK prof) (mkCtx p f).dt (Snow.saveStride NtExp) (k + 1) (st2D p f T0C prof NtExp k) := by
+  set c := mkCtx p f with hc
+  set S := Snow.saveStride NtExp with hS
+  have hSpos : 0 < S := saveStride_pos (by omega)
+  have hk' : k < (shelfK prof).length := by simpa [shelfK] using hk
+  have hkel : (kelvin : ℝ) = 273.15 := by simp only [kelvin, lit_real]; norm_num
+  unfold st2D
+  refine stateAt_inv _ (CoolInv2D (shelfK prof) c.dt S) (shelfK prof) _ ?_ ?_ k hk'
+  · exact ⟨by simpa [coolInit2D] using hSpos, by simp [coolInit2D], by simp [coolInit2D, Aligned2],
+      by simp [coolInit2D], by simp [coolInit2D], by intro i' h; omega⟩
+  · intro j hj s inv
+    have hjN : j < NtExp := by simp only [shelfK, List.length_map] at hj; omega
+    have hst : S2D.saveStride NtExp = S := saveStride_2D NtExp
+    by_cases hmod : j % S = 0
+    · have hcnt : s.rows.size ≤ j / S := mul_lt_of_dvd_step hSpos hmod inv.count
+      have hlt : s.rows.size < NSave := lt_of_le_of_lt hcnt (save_index_lt hjN)
+      have hrows : (coolStep2D p f NtExp j s (shelfK prof)[j]).rows.toList =
+          s.rows.toList ++ [S2D.Row.mk (c.dt * ofNat' j) ((shelfK prof)[j] - kelvin)
+            ((coolStep2D p f NtExp j s (shelfK prof)[j]).T.map (· - kelvin))
+            (Array.replicate (c.Nz * c.Nr) zero)] := by
+        simp only [coolStep2D, coolStepSt, hst, hmod, if_true, Array.toList_push, ← hc]
+      have hsteps : (coolStep2D p f NtExp j s (shelfK prof)[j]).steps.toList = s.steps.toList ++ [j] := by
+        simp only [coolStep2D, coolStepSt, hst, hmod, if_true, Array.toList_push]
+      have hsize : (coolStep2D p f NtExp j s (shelfK prof)[j]).rows.size = s.rows.size + 1 := by
+        simp only [coolStep2D, coolStepSt, hst, hmod, if_true, Array.size_push]
+      refine ⟨?_, by rw [hsize]; omega, ?_, ?_, ?_, ?_⟩
+      · rw [hsize]
+        have : s.rows.size * S ≤ j / S * S := Nat.mul_le_mul_right S hcnt
+        have h2 : j / S * S = j := Nat.div_mul_cancel (Nat.dvd_of_mod_eq_zero hmod)
+        rw [Nat.add_mul, Nat.one_mul]; omega
+      · rw [hrows, hsteps]
+        apply aligned2_push inv.aligned
+        refine ⟨hj, by simp only [ofNat'_real], ?_⟩
+        simp only [hkel, List.getD_eq_getElem?_getD, List.getElem?_eq_getElem hj, Option.getD_some]
+      · intro st hstm
+        rw [hsteps, List.mem_append, List.mem_singleton] at hstm
+        rcases hstm with h | h
+        · have := inv.lt st h; omega
+        · omega
+      · rw [hsteps]
+        exact sorted_push _ _ inv.sorted (fun a ha => by have := inv.lt a ha; omega)
+      · intro i' hi'
+        have : i' = j := by omega
+        subst this
+        simp only [coolStep2D, coolStepSt, List.getD_eq_getElem?_getD, List.getElem?_eq_getElem hj,
+          Option.getD_some]
+    · have hrows : (coolStep2D p f NtExp j s (shelfK prof)[j]).rows = s.rows := by
+        simp only [coolStep2D, coolStepSt, hst, hmod, if_false]
+      have hsteps : (coolStep2D p f NtExp j s (shelfK prof)[j]).steps = s.steps := by
+        simp only [coolStep2D, coolStepSt, hst, hmod, if_false]
+      refine ⟨?_, by rw [hrows]; exact inv.cap, by rw [hrows, hsteps]; exact inv.aligned, ?_,
+        by rw [hsteps]; exact inv.sorted, ?_⟩
+      · rw [hrows]; have := inv.count; omega
+      · intro st hstm; rw [hsteps] at hstm; have := inv.lt st hstm; omega
+      · intro i' hi'
+        have : i' = j := by omega
+        subst this
+        simp only [coolStep2D, coolStepSt, List.getD_eq_getElem?_getD, List.getElem?_eq_getElem hj,
+          Option.getD_some]
+
+/-- invariant of the 2D solidification loop before its step `i` -/
+structure SolidInv2D (shelf : List ℝ) (dt : ℝ) (S iEnd : ℕ) (i : ℕ) (s : S2D.SolSt ℝ) : Prop where
+  count : s.rows.size * S < i + S
+  cap : s.rows.size ≤ NSave
+  aligned : Aligned2 shelf dt s.rows.toList s.steps.toList
+  range : ∀ st ∈ s.steps.toList, iEnd ≤ st ∧ st < iEnd + i
+  sorted : s.steps.toList.Pairwise (· ≤ ·)
+
+open Snow.S2D in
+theorem solid_inv_2D (p : Par ℝ) (f : Flags) (prof : List ℝ) (NtExp : ℕ) (hlen : prof.length ≤ NtExp)
+    (iEnd : ℕ) (hi : iEnd < prof.length) (s0 : CoolSt ℝ) :
+    SolidInv2D (shelfK prof) (mkCtx p f).dt (Snow.saveStride (NtExp - iEnd)) iEnd
+      ((shelfK prof).drop iEnd).length (solFin2D (mkCtx p f) NtExp prof iEnd s0) := by
+  set c := mkCtx p f with hc
+  set S := Snow.saveStride (NtExp - iEnd) with hS
+  have hSpos : 0 < S := saveStride_pos (by omega)
+  have hkel : (kelvin : ℝ) = 273.15 := by simp only [kelvin, lit_real]; norm_num
+  have hlenK : (shelfK prof).length = prof.length := by simp [shelfK]
+  unfold solFin2D
+  have := iterIdx_inv (solStep2D c NtExp iEnd) (SolidInv2D (shelfK prof) c.dt S iEnd)
+    ((shelfK prof).drop iEnd) 0 (solInit2D c s0) ?_ ?_
+  · simpa using this
+  · exact ⟨by simpa [solInit2D] using hSpos, by simp [solInit2D], by simp [solInit2D, Aligned2],
+      by simp [solInit2D], by simp [solInit2D]⟩
+  · intro j hj s inv
+    simp only [Nat.zero_add] at inv ⊢
+    have hjl : iEnd + j < (shelfK prof).length := by simp only [List.length_drop] at hj; omega
+    have hjN : j < NtExp - iEnd := by omega
+    have hx : ((shelfK prof).drop iEnd)[j] = (shelfK prof)[iEnd + j] := by simp
+    have hst : S2D.saveStride (NtExp - iEnd) = S := saveStride_2D _
+    by_cases hmod : j % S = 0
+    · have hcnt : s.rows.size ≤ j / S := mul_lt_of_dvd_step hSpos hmod inv.count
+      have hlt : s.rows.size < NSave := lt_of_le_of_lt hcnt (save_index_lt hjN)
+      have hrows : (solStep2D c NtExp iEnd j s ((shelfK prof).drop iEnd)[j]).rows.toList =
+          s.rows.toList ++ [S2D.Row.mk (c.dt * ofNat' iEnd + c.dt * ofNat' j)
+            (((shelfK prof).drop iEnd)[j] - kelvin)
+            ((solStep2D c NtExp iEnd j s ((shelfK prof).drop iEnd)[j]).T.map (· - kelvin))
+            (solStep2D c NtExp iEnd j s ((shelfK prof).drop iEnd)[j]).w] := by
+        simp only [solStep2D, solStepSt, hst, hmod, if_true, Array.toList_push]
+      have hsteps : (solStep2D c NtExp iEnd j s ((shelfK prof).drop iEnd)[j]).steps.toList =
+          s.steps.toList ++ [iEnd + j] := by
+        simp only [solStep2D, solStepSt, hst, hmod, if_true, Array.toList_push]
+      have hsize : (solStep2D c NtExp iEnd j s ((shelfK prof).drop iEnd)[j]).rows.size = s.rows.size + 1 := by
+        simp only [solStep2D, solStepSt, hst, hmod, if_true, Array.size_push]
+      refine ⟨?_, by rw [hsize]; omega, ?_, ?_, ?_⟩
+      · rw [hsize]
+        have : s.rows.size * S ≤ j / S * S := Nat.mul_le_mul_right S hcnt
+        have h2 : j / S * S = j := Nat.div_mul_cancel (Nat.dvd_of_mod_eq_zero hmod)
+        rw [Nat.add_mul, Nat.one_mul]; omega
+      · rw [hrows, hsteps]
+        apply aligned2_push inv.aligned
+        refine ⟨hjl, ?_, ?_⟩
+        · simp only [ofNat'_real]; push_cast; ring
+        · simp only [hx, hkel, List.getD_eq_getElem?_getD, List.getElem?_eq_getElem hjl, Option.getD_some]
+      · intro st hstm
+        rw [hsteps, List.mem_append, List.mem_singleton] at hstm
+        rcases hstm with h | h
+        · have := inv.range st h; omega
+        · omega
+      · rw [hsteps]
+        exact sorted_push _ _ inv.sorted (fun a ha => by have := inv.range a ha; omega)
+    · have hrows : (solStep2D c NtExp iEnd j s ((shelfK prof).drop iEnd)[j]).rows = s.rows := by
+        simp only [solStep2D, solStepSt, hst, hmod, if_false]
+      have hsteps : (solStep2D c NtExp iEnd j s ((shelfK prof).drop iEnd)[j]).steps = s.steps := by
+        simp only [solStep2D, solStepSt, hst, hmod, if_false]
+      refine ⟨?_, by rw [hrows]; exact inv.cap, by rw [hrows, hsteps]; exact inv.aligned, ?_,
+        by rw [hsteps]; exact inv.sorted⟩
+      · rw [hrows]; have := inv.count; omega
+      · intro st hstm; rw [hsteps] at hstm; have := inv.range st hstm; omega
+
+open Snow.S2D in
+/-- **buffer_in_range (2D)**: with a profile of at most `Nt_exp` samples every in-loop row index of
+both stages is `< 10 000`; the run raises `IndexError` exactly when the extra post-nucleation row
+meets a full cooling buffer. -/
+theorem buffer_in_range_2D (p : Par ℝ) (f : Flags) (T0C : ℝ) (prof : List ℝ) (NtExp : ℕ)
+    (hlen : prof.length ≤ NtExp) (Frand : ℝ) (cn : Option ℝ) :
+    (run p f T0C prof NtExp Frand cn = .error "IndexError" ↔
+      ∃ iEnd, (cool2D p f T0C prof NtExp Frand cn).1 = some iEnd ∧
+        (st2D p f T0C prof NtExp iEnd).rows.size = NSave) ∧
+    (∀ k, k < prof.length → (st2D p f T0C prof NtExp k).rows.size ≤ NSave) ∧
+    (∀ iEnd s0, iEnd < prof.length → (solFin2D (mkCtx p f) NtExp prof iEnd s0).rows.size ≤ NSave) := by
+  refine ⟨?_, fun k hk => (cool_inv_2D p f T0C prof NtExp hlen k hk).cap,
+    fun iEnd s0 hi => (solid_inv_2D p f prof NtExp hlen iEnd hi s0).cap⟩
+  rw [run_eq]
+  rcases hc : cool2D p f T0C prof NtExp Frand cn with ⟨_ | iEnd, s⟩
+  · simp
+  · have hs : s = st2D p f T0C prof NtExp iEnd := by
+      unfold cool2D at hc; exact loopUntil_snd_of_some _ _ _ _ _ _ hc
+    have hi : iEnd < prof.length := by
+      have : (cool2D p f T0C prof NtExp Frand cn).1 = some iEnd := by rw [hc]
+      unfold cool2D at this
+      rw [loopUntil_fst_some_iff] at this
+      simpa [shelfK] using this.1
+    have hcap := (cool_inv_2D p f T0C prof NtExp hlen iEnd hi).cap
+    rw [← hs] at hcap
+    simp only
+    by_cases hfull : s.rows.size ≥ 10000
+    · simp only [hfull, if_true, true_iff]
+      exact ⟨iEnd, rfl, by rw [← hs]; unfold NSave at *; omega⟩
+    · simp only [hfull, if_false]
+      have hne : ¬ ∃ i, some iEnd = some i ∧ (st2D p f T0C prof NtExp i).rows.size = NSave := by
+        rintro ⟨i, h1, h2⟩
+        cases h1
+        rw [← hs] at h2; unfold NSave at h2; omega
+      rcases (solFin2D (mkCtx p f) NtExp prof iEnd s).iSol with _ | iS
+      · simp only [hne, iff_false]; simp
+      · simp only [hne, iff_false]; simp
+
+
+/-! ### 2D: the histories -/
+
+/-- the (ghost) loop indices of the rows of the four histories -/
+def histSteps (iEnd : ℕ) (s : S2D.CoolSt ℝ) (sol : S2D.SolSt ℝ) : Array ℕ :=
+  s.steps.push iEnd ++ sol.steps.extract 0 (sol.steps.size - 1)
+
+theorem toList_extract0 {X : Type} (A : Array X) (n : ℕ) : (A.extract 0 n).toList = A.toList.take n := by
+  rw [Array.toList_extract, List.extract_eq_take_drop]; simp
+
+theorem aligned2_time_sorted {shelf : List ℝ} {dt : ℝ} (hdt : 0 ≤ dt) {rows : List (S2D.Row ℝ)}
+    {steps : List ℕ} (ha : Aligned2 shelf dt rows steps) (hs : steps.Pairwise (· ≤ ·)) :
+    rows.Pairwise (fun a b => a.time ≤ b.time) := by
+  induction ha with
+  | nil => exact List.Pairwise.nil
+  | @cons r st rows steps hr _ ih =>
+    rw [List.pairwise_cons] at hs ⊢
+    refine ⟨?_, ih hs.2⟩
+    intro b hb
+    -- `b` is aligned with some later step
+    have : ∃ st', st' ∈ steps ∧ RowOK2 shelf dt b st' := by
+      rename_i hrest
+      clear ih hs
+      induction hrest with
+      | nil => simp at hb
+      | @cons r' st' rows' steps' hr' _ ih' =>
+        rcases List.mem_cons.mp hb with h | h
+        · exact ⟨st', by simp, h ▸ hr'⟩
+        · obtain ⟨x, hx, hxr⟩ := ih' h
+          exact ⟨x, List.mem_cons_of_mem _ hx, hxr⟩
+    obtain ⟨st', hst', hb'⟩ := this
+    rw [hr.2.1, hb'.2.1]
+    exact mul_le_mul_of_nonneg_left (by exact_mod_cast hs.1 st' hst') hdt
+
+open Snow.S2D in
+/-- **history_aligned (2D)**: in a completed run the four histories have the same length
+`i_save_end + 1 + (i_save − 1)`; they are the columns of one list of rows, each aligned with the
+programme at its loop index (`time = dt·step`, `shelfTemp = profile[step]`); the loop indices are
+non-decreasing. -/
+theorem history_aligned_2D (p : Par ℝ) (f : Flags) (T0C : ℝ) (prof : List ℝ) (NtExp : ℕ)
+    (hlen : prof.length ≤ NtExp) (Frand : ℝ) (cn : Option ℝ) (r : Result ℝ)
+    (h : run p f T0C prof NtExp Frand cn = .ok r) :
+    let s := st2D p f T0C prof NtExp r.iCool
+    let sol := solFin2D (mkCtx p f) NtExp prof r.iCool s
+    r.time.size = r.iSaveEnd + 1 + (sol.rows.size - 1) ∧
+    r.shelf.size = r.time.size ∧ r.temp.size = r.time.size ∧ r.ice.size = r.time.size ∧
+    r.time = (histRows (mkCtx p f) r.iCool s sol).map (fun row => row.time / 3600) ∧
+    r.shelf = (histRows (mkCtx p f) r.iCool s sol).map (·.shelf) ∧
+    Aligned2 (shelfK prof) (mkCtx p f).dt (histRows (mkCtx p f) r.iCool s sol).toList
+      (histSteps r.iCool s sol).toList ∧
+    (histSteps r.iCool s sol).toList.Pairwise (· ≤ ·) := by
+  intro s sol
+  obtain ⟨hc, _, _, iS, _, hr⟩ := run2D_cool p f T0C prof NtExp Frand cn r h
+  have hi : r.iCool < prof.length := by
+    unfold cool2D at hc
+    rw [loopUntil_fst_some_iff] at hc
+    simpa [shelfK] using hc.1
+  have cinv := cool_inv_2D p f T0C prof NtExp hlen r.iCool hi
+  have sinv := solid_inv_2D p f prof NtExp hlen r.iCool hi s
+  have hkel : (kelvin : ℝ) = 273.15 := by simp only [kelvin, lit_real]; norm_num
+  have hsz : sol.rows.size = sol.steps.size := by
+    have := sinv.aligned.length_eq
+    simpa using this
+  have hfields : r.time = (histRows (mkCtx p f) r.iCool s sol).map (fun row => row.time / 3600) ∧
+      r.shelf = (histRows (mkCtx p f) r.iCool s sol).map (·.shelf) ∧
+      r.temp = (histRows (mkCtx p f) r.iCool s sol).map (·.temp) ∧
+      r.ice = (histRows (mkCtx p f) r.iCool s sol).map (·.ice) ∧ r.iSaveEnd = s.rows.size := by
+    rw [hr]
+    simp only [mkResult, ofNat'_real, Nat.cast_ofNat]
+    exact ⟨rfl, rfl, rfl, rfl, rfl⟩
+  obtain ⟨ht, hsh, htemp, hice, hsave⟩ := hfields
+  have hsize : (histRows (mkCtx p f) r.iCool s sol).size = s.rows.size + 1 + (sol.rows.size - 1) := by
+    simp only [histRows, Array.size_append, Array.size_push, Array.size_extract]
+    omega
+  refine ⟨by rw [ht, hsave]; simpa using hsize, by rw [ht, hsh]; simp, by rw [ht, htemp]; simp,
+    by rw [ht, hice]; simp, ht, hsh, ?_, ?_⟩
+  · -- alignment
+    simp only [histRows, histSteps, Array.toList_append, Array.toList_push, toList_extract0]
+    apply List.rel_append
+    · apply aligned2_push cinv.aligned
+      refine ⟨by simpa [shelfK] using hi, by simp only [nucRow, ofNat'_real], ?_⟩
+      simp only [nucRow, hkel]
+      rw [cinv.last r.iCool rfl]
+    · rw [← hsz]
+      exact List.forall₂_take _ sinv.aligned
+  · simp only [histSteps, Array.toList_append, Array.toList_push, toList_extract0]
+    rw [List.pairwise_append]
+    refine ⟨sorted_push _ _ cinv.sorted (fun a ha => by have := cinv.lt a ha; omega),
+      (sinv.sorted).sublist (List.take_sublist _ _), ?_⟩
+    intro a ha b hb
+    have hb' := (sinv.range b (List.mem_of_mem_take hb)).1
+    rw [List.mem_append, List.mem_singleton] at ha
+    rcases ha with ha | ha
+    · have := cinv.lt a ha; omega
+    · omega
+
+open Snow.S2D in
+/-- **2D**: the time axis is non-decreasing -/
+theorem time_nondecreasing_2D (p : Par ℝ) (f : Flags) (hdt : 0 ≤ (mkCtx p f).dt) (T0C : ℝ) (prof : List ℝ)
+    (NtExp : ℕ) (hlen : prof.length ≤ NtExp) (Frand : ℝ) (cn : Option ℝ) (r : Result ℝ)
+    (h : run p f T0C prof NtExp Frand cn = .ok r) :
+    r.time.toList.Pairwise (· ≤ ·) := by
+  obtain ⟨_, _, _, _, ht, _, hal, hso⟩ := history_aligned_2D p f T0C prof NtExp hlen Frand cn r h
+  rw [ht, Array.toList_map, List.pairwise_map]
+  refine (aligned2_time_sorted hdt hal hso).imp ?_
+  intro a b hab
+  exact div_le_div_of_nonneg_right hab (by norm_num)
+
 end Snow.C13
